@@ -104,21 +104,23 @@ class Env:
         self.force_prime = False   # inside a primed sub-expression every state variable is read primed
 
     def ivar(self, name, primed):
-        primed = primed or self.force_prime
+        # a variable bound by a quantifier is not touched by a prime that encloses the quantifier
         if not primed and name in self.bound:
             return self.bound[name]
         if primed and (name + "'") in self.bound:
             return self.bound[name + "'"]
+        primed = primed or self.force_prime
         d = self.table[name]
         if d['type'] == 'bool':
             raise SemError(f'{name} is Boolean')
         return link.bv_of(name, d, self.bits, primed)
 
     def bvar(self, name, primed):
-        primed = primed or self.force_prime
         key = name + ("'" if primed else '')
         if key in self.bound:
             return self.bound[key]
+        primed = primed or self.force_prime
+        key = name + ("'" if primed else '')
         d = self.table[name]
         if d['type'] != 'bool':
             raise SemError(f'{name} is not Boolean')
@@ -315,18 +317,18 @@ def eval_py(t, table, values, defs=None):
             return {'=': a == b, '#': a != b, '<': a < b, '<=': a <= b,
                     '>': a > b, '>=': a >= b}[t[1]]
         if k == 'beq':
-            p = bool(rec(t[2], vals, defs))
-            q = bool(rec(t[3], vals, defs))
-            return (p == q) if t[1] == '=' else (p != q)
+            pv = bool(rec(t[2], vals, defs))
+            qv = bool(rec(t[3], vals, defs))
+            return (pv == qv) if t[1] == '=' else (pv != qv)
         if k == 'not':
             return not rec(t[1], vals, defs)
         if k == 'bin':
             op = t[1]
-            p = bool(rec(t[2], vals, defs))
+            pv = bool(rec(t[2], vals, defs))
             # no short circuit: undefinedness must propagate as in to_z3 guards
-            q = bool(rec(t[3], vals, defs))
-            return {'and': p and q, 'or': p or q, 'implies': (not p) or q,
-                    'equiv': p == q, 'xor': p != q}[op]
+            qv = bool(rec(t[3], vals, defs))
+            return {'and': pv and qv, 'or': pv or qv, 'implies': (not pv) or qv,
+                    'equiv': pv == qv, 'xor': pv != qv}[op]
         if k in ('ite', 'bite'):
             c = rec(t[1], vals, defs)
             a = rec(t[2], vals, defs)
@@ -368,25 +370,25 @@ def eval_py(t, table, values, defs=None):
     return rec(t, values, defs)
 
 
-def _prime_all(t, defs):
+def _prime_all(t, defs, bound=frozenset()):
     """Tree with every state variable primed and every reference expanded (plain Python replay)."""
     if not isinstance(t, tuple):
         return t
     k = t[0]
     if k in ('var', 'bvar'):
-        return (k, t[1], True)
+        return t if (t[1] in bound and not t[2]) else (k, t[1], True)
     if k in ('ref', 'bref'):
-        return _prime_all(defs[t[1]], defs)
+        return _prime_all(defs[t[1]], defs, bound)
     if k in ('aprime', 'bprime'):
-        return _prime_all(t[1], defs)
+        return _prime_all(t[1], defs, bound)
     if k == 'let':
         d2 = dict(defs)
         for n, e in t[1]:
             d2[n] = e
-        return _prime_all(t[2], d2)
+        return _prime_all(t[2], d2, bound)
     if k in ('forall', 'exists'):
-        return (k, t[1], _prime_all(t[2], defs))
-    return tuple(_prime_all(c, defs) if isinstance(c, tuple) else c for c in t)
+        return (k, t[1], _prime_all(t[2], defs, frozenset(bound) | frozenset(t[1])))
+    return tuple(_prime_all(c, defs, bound) if isinstance(c, tuple) else c for c in t)
 
 
 # ---------------------------------------------------------------- widths
